@@ -184,6 +184,24 @@ def run_case(case):
             return [dict(s0, e=[s0["e"][p] for p in perm], k=[s0["k"][p] for p in perm])] + shells[1:]
 
         rewrite_all(permuted, "primitives listed in order %s" % (list(perm),), "permute_primitives")
+    # (b') the same re-listing done IN PLACE through the public setters of a shell that has already been used (no
+    # renormalisation asked for: the normalisation constants are invariant under the re-listing, so none is needed)
+    if K >= 2:
+        perm = [int(p) for p in np.roll(np.arange(K), 1)] if case.get("tier") != "thorough" else [int(p) for p in rng.permutation(K)]
+        if perm != list(range(K)):
+            live = list(cm.build(shells))
+            for name, fn, nidx in F[:2]:
+                cm.call(fn, live)
+            try:
+                e_old, k_old = np.array(live[0].exps), np.array(live[0].coeffs)
+                live[0].exps = e_old[perm]
+                live[0].coeffs = k_old[perm]
+                done = True
+            except Exception as exc:  # a shell that refuses the update is not judged here (C19 owns rejected updates)
+                done = False
+            if done:
+                for name, fn, nidx in F:
+                    cmp(name, nidx, cm.call(fn, live), base[name], "the same shell objects after shell 0's primitives were re-listed in place in order %s" % (perm,), "permute_in_place")
     # (c) split one primitive into two with shares s, 1-s
     kk = int(rng.integers(K))
     sh = case["share"]
